@@ -1087,8 +1087,17 @@ fn inject_fault(rng: &mut Rng, c: &mut Case) {
         }
         8 => {
             let i = *rng.pick(&rows);
+            // 0x100000 is accepted as a row number by the reader (the test is `>`): use it only where the bounding
+            // box stays below 2^21 cells (D37)
+            let span = {
+                let cols: Vec<u32> = cells.iter().filter_map(|j| if let It::Cell { col, .. } = &sh.items[*j].it { Some(*col) } else { None }).collect();
+                let rws: Vec<u32> = rows.iter().filter_map(|j| if let It::Row { r, .. } = &sh.items[*j].it { Some(*r) } else { None }).collect();
+                let w = cols.iter().max().map_or(1, |m| m - cols.iter().min().unwrap() + 1) as u64;
+                let h = 0x0010_0000u64 - *rws.iter().min().unwrap() as u64 + 1;
+                w * h
+            };
             if let It::Row { r, .. } = &mut sh.items[i].it {
-                *r = *rng.pick(&[0x0010_0000u32, 0x0010_0001, 0xFFFF_FFFF, 0x0020_0000]);
+                *r = if span <= 1 << 21 { *rng.pick(&[0x0010_0000u32, 0x0010_0001, 0xFFFF_FFFF]) } else { *rng.pick(&[0x0010_0001u32, 0xFFFF_FFFF, 0x0020_0000]) };
             }
             c.fault = "row_too_big".into();
         }
@@ -1106,10 +1115,14 @@ fn inject_fault(rng: &mut Rng, c: &mut Case) {
             c.fault = "widestr_long".into();
         }
         10 => {
-            // rows out of order: move the last row header's number below the first
+            // rows out of order: one row header gets the number of another row (inside the existing span, so the
+            // bounding box stays below 2^21 cells, D37)
             let i = *rng.pick(&rows);
+            let j = *rng.pick(&rows);
+            let other = if let It::Row { r, .. } = &sh.items[j].it { *r } else { 0 };
+            let first = if let It::Row { r, .. } = &sh.items[rows[0]].it { *r } else { 0 };
             if let It::Row { r, .. } = &mut sh.items[i].it {
-                *r = if rng.chance(1, 2) { 0 } else { rng.below(1 << 20) as u32 };
+                *r = if rng.chance(1, 2) { first } else { other };
             }
             c.fault = "rows_unsorted".into();
         }
@@ -1621,7 +1634,16 @@ fn main() {
         }
         let text = c.to_text();
         let nontrivial = c.sheets.iter().any(|s| s.items.iter().any(|f| matches!(&f.it, It::Cell { kind, .. } if *kind != Kind::Blank)));
+        let t0 = std::time::Instant::now();
         let out = run_case(&c, &mut drv, Some(&mut rep));
+        let ms = t0.elapsed().as_millis();
+        rep.add("time_ms_cases", ms as u64);
+        if ms > 300 {
+            rep.count("slow_cases_over_300ms");
+            if std::env::var("C03_TIMING").is_ok() {
+                eprintln!("slow case {i}: {ms} ms, {} bytes of description, fault {}", text.len(), c.fault);
+            }
+        }
         rep.case(&text, nontrivial);
         count_case(&c, &mut rep);
         record(&c, &out, &mut drv, &mut rep);
